@@ -995,7 +995,14 @@ def pattern_mov8(context, tree, c0):
 @thumb_isa.pattern("stm", "CJMPI8(reg,reg)", size=6)
 def pattern_cjmp_signed(context, tree, c0, c1):
     op, yes_label, no_label = tree.value
-    opnames = {"<": Bltw, ">": Bgtw, "==": Beqw, "!=": Bnew, ">=": Bgew}
+    opnames = {
+        "<": Bltw,
+        ">": Bgtw,
+        "==": Beqw,
+        "!=": Bnew,
+        ">=": Bgew,
+        "<=": Blew,
+    }
     Bop = opnames[op]
     jmp_ins = Bw(no_label.name, jumps=[no_label])
     context.emit(Cmp(c0, c1))
